@@ -25,16 +25,18 @@ WINDOWS = st.lists(st.tuples(st.integers(-2, 12), st.integers(0, 8)), min_size=2
 
 
 def strategy(tier):
-    return st.tuples(gen.tiered(tier, max_ops=12), WINDOWS).map(lambda x: dict(x[0], win=[list(w) for w in x[1]]))
+    return st.tuples(gen.tiered(tier, max_ops=12, shifts=True), WINDOWS).map(lambda x: dict(x[0], win=[list(w) for w in x[1]]))
 
 
 def exhaustive(tier):
+    import itertools
+    long_ = gen.very_long_cases()       # every tier: twelve fixed histories with a pair of 65-130 runs
     if tier != 'thorough':
-        return None
-    return {'cases': common.single_pair_histories(), 'bound': common.SINGLE_PAIR_BOUND}
+        return {'cases': long_, 'bound': '12 fixed very long histories (one pair with 65-130 runs)'}
+    return {'cases': itertools.chain(long_, common.single_pair_histories()), 'bound': common.SINGLE_PAIR_BOUND + '; 12 fixed very long histories (one pair with 65-130 runs)'}
 
 
-def derived(G, M, nodes, wins):
+def derived(G, M, nodes, wins, printable=True):
     """Yield (name, thunk) for every derived constructor applicable to G."""
     import dynetx as dn
     from dynetx.readwrite import json_graph
@@ -42,12 +44,14 @@ def derived(G, M, nodes, wins):
     lo = min(inst) if inst else 0
     for off, ln in wins:
         a, b = lo + off, lo + off + ln
-        yield 'time_slice(%d,%d)' % (a, b), (lambda a=a, b=b: G.time_slice(a, b))
+        yield ('time_slice(%d,%d)' % (a, b) if printable else 'time_slice(first+%d,first+%d)' % (off, off + ln)), (lambda a=a, b=b: G.time_slice(a, b))
     if G.is_directed():
         yield 'to_undirected', (lambda: G.to_undirected())
         yield 'to_undirected(reciprocal)', (lambda: G.to_undirected(reciprocal=True))
     else:
         yield 'to_directed', (lambda: G.to_directed())
+    if not printable:       # timestamps beyond the int -> str limit cannot be written to text or JSON at all
+        return
     # the text formats cannot tell 1 from '1': only universes of one id type go through them
     if common.simple_ids(G.nodes()) and len({type(n) for n in G.nodes()}) <= 1:
         nt = int if all(type(n) is int for n in G.nodes()) else None
@@ -78,7 +82,7 @@ def run_case(case, rec):
     for c in d.classes:
         rec.classify(c)
     if not stop and 'win' in case:
-        for name, thunk in derived(d.G, d.M, d.nodes, case['win']):
+        for name, thunk in derived(d.G, d.M, d.nodes, case['win'], printable=not d.shift):
             ok, H = safe(thunk)
             if not rec.check('C03.derived.call', ok, lambda: '%s raised %r' % (name, H)):
                 continue
